@@ -51,3 +51,32 @@ class debug_level:
     def __exit__(self, *a):
         logger.setLevel(logging.ERROR)
         return False
+
+
+def debug_dimension(p):
+    """decorator pair for a property module: `gen` marks a fraction p of the generated cases with case["debug"]=True
+    (drawn from the case's own generator, so it replays), `chk` runs such a case with the package logger at DEBUG.
+    No result depends on the log level, so every oracle applies unchanged."""
+    def gen(gen_case):
+        def wrapped(rng, i, tier):
+            case = gen_case(rng, i, tier)
+            if isinstance(case, dict) and "debug" not in case:
+                case["debug"] = rng.random() < p
+            return case
+        return wrapped
+
+    def chk(check_case):
+        def wrapped(ctx, case):
+            dbg = isinstance(case, dict) and bool(case.get("debug"))
+            if os.environ.get("LMM_FORCE_DEBUG"):
+                dbg = True
+            if dbg:
+                ctx.count("debug_level_cases")
+            ctx.case_debug = dbg
+            try:
+                with debug_level(dbg):
+                    return check_case(ctx, case)
+            finally:
+                ctx.case_debug = False
+        return wrapped
+    return gen, chk
